@@ -549,6 +549,96 @@ def replay_caller(ctx: Ctx, inp: dict) -> None:
         ctx.disagree("caller", inp, f2hex(v), rep[0], len(mods))
 
 
+def history_stream(ctx: Ctx, n: int, fixed=None) -> None:
+    """object histories: the centres are MUTABLE Point objects that the force stage updates in place (`module.center.x += …`,
+    `pos[v].x = …`).  The same Point objects are evaluated, moved in place, and evaluated again with the same radii: every
+    answer must be the overlap of the CURRENT coordinates (60-digit oracle) and bit-equal to the answer for freshly built
+    Points; interleaved with total_intersection_area on a live netlist whose centres are moved in place between calls."""
+    rng = ctx.rng
+    scripts = []
+    for _ in range(0 if fixed is not None else n):
+        scale = 10.0 ** rng.uniform(-3, 3)
+        r1 = scale * rng.choice([rng.uniform(0.1, 1.0), 1.0, 0.5])
+        r2 = scale * rng.choice([rng.uniform(0.1, 1.0), 1.0, r1 / scale])
+        x1, y1 = scale * rng.uniform(-2, 2), scale * rng.uniform(-2, 2)
+        steps = []
+        for _ in range(rng.randint(2, 6)):
+            kind = rng.choice(["lens", "lens", "far", "nested", "same", "ext", "int"])
+            if kind == "far":
+                d = (r1 + r2) * rng.uniform(1.1, 5)
+            elif kind == "nested":
+                d = abs(r1 - r2) * rng.random()
+            elif kind == "same":
+                d = 0.0
+            elif kind == "ext":
+                d = ulp_nudge(r1 + r2, rng.randint(-4, 4))
+            elif kind == "int":
+                d = abs(ulp_nudge(abs(r1 - r2), rng.randint(-4, 4)))
+            else:
+                d = abs(r1 - r2) + (r1 + r2 - abs(r1 - r2)) * rng.uniform(0.05, 0.95)
+            th = rng.choice([0.0, math.pi / 2, rng.uniform(0, 2 * math.pi)])
+            steps.append([rng.choice(["set2", "set2", "iadd2", "set1", "both"]), d * math.cos(th), d * math.sin(th)])
+        scripts.append({"history": True, "family": "history", "r1": f2hex(r1), "r2": f2hex(r2), "x1": f2hex(x1), "y1": f2hex(y1),
+                        "steps": [[k, f2hex(a), f2hex(b)] for k, a, b in steps], "extra": rng.randint(0, 3)})
+    if fixed is not None:
+        scripts = fixed
+    for inp in scripts:
+        r1, r2, x1, y1 = (hex2f(inp[k]) for k in ("r1", "r2", "x1", "y1"))
+        p, q = Point(x1, y1), Point(x1, y1)
+        # a live netlist holding the SAME two Point objects as module centres (plus bystanders)
+        die = None
+        try:
+            extra = [(x1 + (i + 1) * 0.7 * r1, y1 - 0.3 * r2 * i, math.pi * (0.5 * r1) ** 2) for i in range(inp.get("extra", 0))]
+            die = _die_of([(x1, y1, math.pi * r1 * r1), (x1, y1, math.pi * r2 * r2)] + extra)
+            die.netlist.modules[0].center = p
+            die.netlist.modules[1].center = q
+        except Exception as e:  # noqa: BLE001
+            ctx.count("history-build-rejected:" + type(e).__name__)
+        ctx.case("history", (inp["r1"], inp["r2"], inp["x1"], inp["y1"], tuple(map(tuple, inp["steps"]))), True, None)
+        for si, (kind, a, b) in enumerate(inp["steps"]):
+            dx, dy = hex2f(a), hex2f(b)
+            if kind == "set1":      # move the FIRST centre so that q - p = (dx, dy)
+                p.x = q.x - dx
+                p.y = q.y - dy
+            elif kind == "iadd2":   # in-place increments, as add_noise does
+                q.x += (p.x + dx) - q.x
+                q.y += (p.y + dy) - q.y
+            elif kind == "both":
+                sh = 0.25 * r1
+                p.x += sh
+                p.y -= sh
+                q.x = p.x + dx
+                q.y = p.y + dy
+            else:
+                q.x = p.x + dx
+                q.y = p.y + dy
+            cur = (p.x, p.y, r1, q.x, q.y, r2)
+            for (c1, ra, c2, rb, args) in ((p, r1, q, r2, cur), (q, r2, p, r1, (q.x, q.y, r2, p.x, p.y, r1))):
+                try:
+                    v = float(circle_circle_intersection_area(c1, ra, c2, rb))
+                    fresh = float(circle_circle_intersection_area(Point(args[0], args[1]), ra, Point(args[3], args[4]), rb))
+                except Exception as e:  # noqa: BLE001
+                    ctx.spec_fail("total", inp, {"step": si, "raises": type(e).__name__}, len(inp["steps"]))
+                    break
+                ex = oracle(*args)
+                R2 = mpf(max(r1, r2)) ** 2
+                if abs(mpf(v) - ex) > mpf(1e-5) * R2:
+                    ctx.spec_fail("history.accurate-for-current-coordinates", inp,
+                                  {"step": si, "area": v, "exact_for_current_coordinates": mp.nstr(ex, 17), "coordinates": list(args)}, len(inp["steps"]))
+                if v != fresh:
+                    ctx.spec_fail("history.same-as-fresh-points", inp, {"step": si, "same_objects": v, "fresh_objects": fresh,
+                                                                        "coordinates": list(args)}, len(inp["steps"]))
+            if die is not None:   # the caller on the live netlist (centres moved in place since the last call)
+                try:
+                    t_live = float(FR.total_intersection_area(die))
+                    t_fresh = float(FR.total_intersection_area(_die_of([(m.center.x, m.center.y, m.area()) for m in die.netlist.modules])))
+                except Exception as e:  # noqa: BLE001
+                    ctx.spec_fail("total", inp, {"step": si, "op": "total_intersection_area", "raises": type(e).__name__}, len(inp["steps"]))
+                    continue
+                if abs(t_live - t_fresh) > 1e-9 * max(1.0, abs(t_fresh)):
+                    ctx.spec_fail("history.caller-same-as-fresh-netlist", inp, {"step": si, "live": t_live, "fresh": t_fresh}, len(inp["steps"]))
+
+
 CORPUS = [  # the witnesses of findings/C17_acos_domain.py and exact tangencies
     (2.1, 3.7, float.fromhex("0x1.7333333333334p+2")), (4.0, 1.6, float.fromhex("0x1.6666666666664p+2")),
     (3.3, 3.8, float.fromhex("0x1.0000000000003p-1")), (1.0, 1.0, 2.0), (1.0, 1.0, 0.0), (2.0, 1.0, 1.0),
@@ -572,7 +662,7 @@ def run(ctx: Ctx) -> None:
                 "(2 of 13 draws; mostly at the origin so that the prescribed distance survives); very far apart centres "
                 "(distance 10^U(153.5, 307.9), where the squared distance is not a double); radii short decimals / dyadic / uniform at scales 1e-6…1e6 (half of the cases), 1e-160…1e150, "
                 "1e-160…1e-140 and 1e140…1e150, one disc possibly 1e-17…1e-1 of the other; centres axis-aligned or rotated, at the "
-                "origin or offset by up to 1000 radii; every pair is evaluated in both argument orders. A second stream drives the body with exact (r1, r2, d) triples through a stand-in for c1 - c2 (distances down to 5e-324 against radii up to 1e150, radius ratios 1e-17…1e-14, exact tangencies, the nearly-equal-radii family), which reaches the zero-divisor guard. A third stream (`caller`) evaluates total_intersection_area on 2..6 discs (tangent / nested / coincident / lens, scales 1e-3..1e3) against twice the sum over unordered pairs of the exact lens area and against the composed Lean models. In the thorough tier 20% (quick 2%) of the pairs take their radii from the WHOLE range of positive doubles (5e-324 … 1.7e308, the smaller one <= 1e150) with centre distances up to the largest double. The exact area is computed twice, by the acos form and by an independent atan2 form, which must agree to 1e-30·R². Far-apart pairs are "
+                "origin or offset by up to 1000 radii; every pair is evaluated in both argument orders. A second stream drives the body with exact (r1, r2, d) triples through a stand-in for c1 - c2 (distances down to 5e-324 against radii up to 1e150, radius ratios 1e-17…1e-14, exact tangencies, the nearly-equal-radii family), which reaches the zero-divisor guard. A fourth stream (`history`) keeps the SAME Point objects through 2..6 steps (moved in place by assignment and by +=, lens / far / nested / coincident / ±4 ulp of the tangencies) and re-evaluates with the same radii: every answer vs the oracle for the CURRENT coordinates and bit-equal to fresh Points, interleaved with total_intersection_area on a live netlist holding those Points vs a freshly built netlist. A third stream (`caller`) evaluates total_intersection_area on 2..6 discs (tangent / nested / coincident / lens, scales 1e-3..1e3) against twice the sum over unordered pairs of the exact lens area and against the composed Lean models. In the thorough tier 20% (quick 2%) of the pairs take their radii from the WHOLE range of positive doubles (5e-324 … 1.7e308, the smaller one <= 1e150) with centre distances up to the largest double. The exact area is computed twice, by the acos form and by an independent atan2 form, which must agree to 1e-30·R². Far-apart pairs are "
                 "trivial; distinct = distinct (centres, radii)")
     cases = []
     full_range = 0.02 if ctx.tier == "quick" else 0.2
@@ -585,6 +675,7 @@ def run(ctx: Ctx) -> None:
     process(ctx, cases)
     body_stream(ctx, ctx.n(6000, 100000))
     caller_stream(ctx, ctx.n(1500, 30000))
+    history_stream(ctx, ctx.n(400, 8000))
     ctx.assumptions.append("radii positive and finite, <= 1e150 (the disc area must be a double; min(r1, r2)**2 raises OverflowError "
                            "when the smaller radius exceeds ~1.34e154); centre coordinates: any finite doubles (centre distances up "
                            "to 8e307 are generated); NaN/inf inputs are outside the property")
@@ -597,6 +688,9 @@ def replay(ctx: Ctx, body: dict) -> None:
     inp = body["input"]
     if inp.get("caller"):
         replay_caller(ctx, inp)
+        return
+    if inp.get("history"):
+        history_stream(ctx, 0, fixed=[inp])
         return
     if inp.get("body"):
         r1, r2, d = hex2f(inp["r1"]), hex2f(inp["r2"]), hex2f(inp["d"])
